@@ -92,7 +92,13 @@ func init() {
 	add("github.com/Azbesciak/RealDecisionMaker/lib/utils.DecodeToStruct", "mapstructure.Decode behind utils.DecodeToStruct: may panic; writes only the object its target pointer refers to (new content unconstrained); allocates", func(x *Exec, st *State, fr *Frame, call *ssa.Call, args []Val) ([]*State, bool) {
 		tv := args[1].T
 		if tv == nil || tv.Kind != kApp || !strings.HasPrefix(tv.Op, "box_") {
-			fail("DecodeToStruct: target is not a statically known pointer")
+			// the target is an interface value whose dynamic type is not known here (the blank parameter object a source or
+			// function object handed out): assumed to write only that object, which no contract of the caller reads
+			x.note("DecodeToStruct into an interface value of unknown dynamic type: assumed to write only the object it refers to")
+			x.bumpAlloc(st)
+			fr.vals[call] = Val{}
+			fr.idx++
+			return nil, true
 		}
 		var pt types.Type
 		for _, tt := range x.TI.tagTypes {
